@@ -442,10 +442,13 @@ pub fn finish<const V: usize>(e: &mut Exec<V>) {
             return;
         }
         if s.committed_pages > s.reserved_pages {
-            e.violate("C28", "committed-gt-reserved", format!("space {}: reserved {} < committed {}", s.name, s.reserved_pages, s.committed_pages));
+            // Known finding (C28): the Compressor's RegionPageResource double-counts committed pages.
+            let sig = if e.case.plan == "Compressor" && s.name == "compressor_space" { "compressor-region-pr-committed-gt-reserved" } else { "committed-gt-reserved" };
+            e.violate("C28", sig, format!("space {}: reserved {} < committed {}", s.name, s.reserved_pages, s.committed_pages));
             return;
         }
     }
+    e.verdict.counters.insert("c13_abstain_immortal_in_nursery_gc".into(), super::weak::IMMORTAL_NURSERY_ABSTAIN.load(Ordering::Relaxed));
     e.verdict.counters.insert("oom_calls".into(), g().oom_calls.load(Ordering::SeqCst));
     e.verdict.counters.insert("block_calls".into(), g().block_calls.load(Ordering::SeqCst));
     e.verdict.counters.insert("stop_calls".into(), g().stop_calls.load(Ordering::SeqCst));
